@@ -133,6 +133,14 @@ def prov_matcher_shape(repo, tier="quick"):
 # edges_from_bonding_descrpt
 # ---------------------------------------------------------------------------
 
+def _is_edges_of(t, G):
+    """G.edges, G.edges() or G.edges(data=...): the edges of G, each once"""
+    if t == ("attr", G, "edges"):
+        return True
+    m = method_call(t, "edges")
+    return bool(m and m[0] == G and ((not m[2] and set(m[3]) <= {"data"}) or (len(m[2]) == 1 and m[2][0][0] == "const" and isinstance(m[2][0][1], bool) and not m[3])))
+
+
 class BondSite:
     """Facts about the resolver's bond loop shared by several obligations."""
 
@@ -260,7 +268,7 @@ def prov_matcher_args(repo, tier="quick"):
     if uv:
         U, V = uv
         eu, ev = elem_of_edge(U), elem_of_edge(V)
-        if eu and ev and eu[0] == ev[0] and {eu[1], ev[1]} == {0, 1} and strip_wrappers(eu[0]) == ("attr", bs.meta, "edges"):
+        if eu and ev and eu[0] == ev[0] and {eu[1], ev[1]} == {0, 1} and _is_edges_of(strip_wrappers(eu[0]), bs.meta):
             ok = True
         else:
             why = "the two coarse nodes (%s, %s) are not the two ends of one element of self.meta_graph.edges" % (show(U), show(V))
@@ -367,7 +375,7 @@ def trip_bond_loop(repo, tier="quick"):
     shape_ok = inner_ok and edge_loop is not None and len(loops) == 2 and edge_loop.kind == "for"
     if shape_ok:
         it = strip_wrappers(fl.canon(edge_loop.ast.iter, edge_loop.id))
-        shape_ok = it == ("attr", bs.meta, "edges") and elem_of(edge_elem) and edge_elem[1] == (edge_loop.ast.lineno, edge_loop.ast.col_offset)
+        shape_ok = _is_edges_of(it, bs.meta) and elem_of(edge_elem) and edge_elem[1] == (edge_loop.ast.lineno, edge_loop.ast.col_offset)
     (obs.append(ob_ok("TRIP.bond-loop", fi, lp.ast, construct="for edge in meta.edges: for _ in range(order): match", instance="nest",
                       reason="each base-graph edge is visited once and the matcher sits directly in its order loop")) if shape_ok else
      obs.append(ob_fail("TRIP.bond-loop", fi, lp.ast, construct="loop nest around the matcher", instance="nest",
@@ -519,8 +527,8 @@ def _judge_order(bs, call, nid, o):
         t_ast, t_nid = _resolve_ast(fl, v_ast.test, v_nid)
         cases.append(("ifexp-true", fl.canon(v_ast.body, v_nid), v_ast, ("ifexp", t_ast, True, t_nid)))
         cases.append(("ifexp-false", fl.canon(v_ast.orelse, v_nid), v_ast, ("ifexp", t_ast, False, t_nid)))
-    elif o[0] == "var":
-        for d in fl.reaching(o[1], nid):
+    elif isinstance(v_ast, ast.Name) and v_ast.id in fl.locals:
+        for d in fl.reaching(v_ast.id, v_nid):
             if d.kind == "unbound":
                 continue
             if d.kind != "assign":
@@ -645,6 +653,16 @@ def _aromatic_guard(bs, tests):
 # squash_atoms
 # ---------------------------------------------------------------------------
 
+def _key_is(kt, key):
+    """the key term is the literal key, or the loop variable of a loop over a literal sequence of keys that contains it"""
+    if kt == ("const", key):
+        return True
+    e = elem_of(kt)
+    if e and e[0] == "elem" and e[1][0] in ("tuple", "list") and all(x[0] == "const" for x in e[1][1]):
+        return ("const", key) in e[1][1]
+    return False
+
+
 def prov_squash(repo, tier="quick"):
     """C10: contraction only for edges whose recorded pair starts with '!'; the contracted nodes
     are that edge's endpoints after remapping; self_loops=False; result assigned back; the kept
@@ -748,6 +766,8 @@ def prov_squash(repo, tier="quick"):
                           reason="contraction exactly when the recorded pair is of the shared-atom kind '!'")))
     # endpoints through the remap dict
     def remapped(x, idx):
+        # `if e in D: x = D[e]` / `else: x = e` is the conditional expression
+        x = (fl.diamond(x, nid) or x) if x is not None else x
         m_ = method_call(x, "get")
         e = _fold_sub(fl, edge_t, idx)
         if m_ and len(m_[2]) == 2 and m_[2][0] == e and m_[2][1] == e:
@@ -815,20 +835,30 @@ def prov_squash(repo, tier="quick"):
                 tt = fl.canon(n.ast.target, n.id)
                 na = node_attr(tt)
                 vv = fl.canon(n.ast.value, n.id)
-                if na and na[1] == keep and na[2] == ("const", key):
+                if na and na[1] == keep and _key_is(na[2], key):
                     # value: G.nodes[keep]['contraction'][rem][key]
-                    ok_v = vv[0] == "sub" and vv[2] == ("const", key) and vv[1][0] == "sub" and vv[1][2] == rem and \
+                    ok_v = vv[0] == "sub" and vv[2] == na[2] and vv[1][0] == "sub" and vv[1][2] == rem and \
                         node_attr(vv[1][1]) and node_attr(vv[1][1])[1] == keep and node_attr(vv[1][1])[2] == ("const", "contraction")
                     if ok_v:
                         sites.add(n.id)
             elif n.kind == "stmt" and isinstance(n.ast, ast.Expr) and isinstance(n.ast.value, ast.Call):
                 tt = fl.canon(n.ast.value, n.id)
                 mm = method_call(tt, "extend")
-                if mm and node_attr(mm[0]) and node_attr(mm[0])[1] == keep and node_attr(mm[0])[2] == ("const", key) and mm[2]:
+                if mm and node_attr(mm[0]) and node_attr(mm[0])[1] == keep and _key_is(node_attr(mm[0])[2], key) and mm[2]:
                     vv = mm[2][0]
-                    ok_v = vv[0] == "sub" and vv[2] == ("const", key) and vv[1][0] == "sub" and vv[1][2] == rem
+                    ok_v = vv[0] == "sub" and vv[2] == node_attr(mm[0])[2] and vv[1][0] == "sub" and vv[1][2] == rem
                     if ok_v:
                         sites.add(n.id)
+        # a store inside `for attr in ('fragid', 'mapping'):` happens once per listed key: the loop as a whole is the site
+        for site in list(sites):
+            inner = enclosing_loops(fi, site)
+            if inner and inner[0].id != lp.id and inner[0].kind == "for":
+                itt = fl.canon(inner[0].ast.iter, inner[0].id)
+                if itt[0] in ("tuple", "list") and ("const", key) in itt[1]:
+                    entry = cfg.node_of_stmt.get(id(inner[0].ast.body[0]))
+                    if entry is not None and (entry == site or inner[0].id not in cfg.reachable_from(entry, avoid={site}, edge_filter=_no_exc)):
+                        sites.discard(site)
+                        sites.add(inner[0].id)
         ends = {lp.id, cfg.exit}
         ok = bool(sites) and not (cfg.reachable_from(nid, avoid=sites, edge_filter=_no_exc) & ends)
         oid = "PAIR.squash-membership"
@@ -848,7 +878,7 @@ def prov_squash(repo, tier="quick"):
         if not isinstance(tgt, ast.Subscript):
             continue
         na = node_attr(fl.canon(tgt, n.id))
-        if not na or na[1] != keep or na[2][0] != "const" or na[2][1] in ("fragid", "mapping"):
+        if not na or na[1] != keep or _key_is(na[2], "fragid") or _key_is(na[2], "mapping") or na[2][0] != "const":
             continue
         n_stores += 1
         vv = fl.canon(n.ast.value, n.id)
